@@ -228,6 +228,10 @@ class World:
                     node = plan.call(fn, *args, **kwargs)
                 elif k == "lit":
                     node = plan.lit(specs_const(nd["v"]))
+                elif k == "src" and nd.get("foreign"):
+                    if not hasattr(self, "registry2"):
+                        self.registry2 = uberjob.Registry()
+                    node = self.registry2.source(plan, self.new_store(i))
                 elif k == "src":
                     if nd.get("alias"):
                         store = AliasStore(self, i, self.stores[nd["deps"][0]["n"]])
